@@ -65,14 +65,16 @@ Example ex_partial_string_stop_only :
 Proof. vm_compute. reflexivity. Qed.
 
 (* --- refutations: why the theorems carry their guards --- *)
-(* a tuple label on a NumPy-array span is broadcast against the span: an absent label aliases period 0 *)
-Theorem arr_tuple_label_aliases_refuted :
-  exists ls x, ~ In x ls /\ locate no_pandas (SArr ls) x = Ret (LPos 0 true).
+(* since fix 35fe7e2 a tuple label on a NumPy-array span is ONE label: absent unless it is an element — also on spans of length 1
+   and 2, where it used to be broadcast (alias period 0 / IndexError) *)
+Theorem arr_tuple_label_absent :
+  forall g ls a b, NoDup ls -> ~ In (LPair a b) ls -> locate g (SArr ls) (LPair a b) = Raise KeyError.
 Proof.
-  exists [LInt 2; LInt 5], (LPair 2 3). split; [simpl; intuition discriminate | vm_compute; reflexivity].
+  intros g ls a b ND Hn. pose proof (locate_arr_spec g ls (LPair a b) ND) as H. apply pos_None in Hn. rewrite Hn in H. exact H.
 Qed.
-(* ... or names a position outside the vector *)
-Example ex_arr_tuple_label_out_of_range : get_item no_pandas (mkC (SArr [LInt 5]) 0 [("X", mkSeries DFloat 1 [10])] [] false) "X" (KLabel (LPair 2 5)) = Raise (A := rd Z) IndexError.
+Example ex_arr_tuple_label_len2 : locate no_pandas (SArr [LInt 2; LInt 5]) (LPair 2 3) = Raise KeyError.
+Proof. vm_compute. reflexivity. Qed.
+Example ex_arr_tuple_label_len1 : get_item no_pandas (mkC (SArr [LInt 5]) 0 [("X", mkSeries DFloat 1 [10])] [] false) "X" (KLabel (LPair 2 5)) = Raise (A := rd Z) KeyError.
 Proof. vm_compute. reflexivity. Qed.
 (* duplicates: the open stop of a slice is the FIRST occurrence of the last label, not the end of the span *)
 Theorem dup_span_open_slice_refuted :
